@@ -103,6 +103,11 @@ def name_pool(rng, kind):
            ('newline', 'CUSTOM_NL\n'), ('unicode', 'CUSTOM_ΑB'),
            ('dash', 'CUSTOM_A-B'), ('bare', 'CUSTOM_'), ('noprefix', 'NOPE_X'),
            ('space', 'CUSTOM_A B'),
+           # names that mean something else to a JSON / URL / SQL layer
+           ('json-escape', 'CUSTOM_\\u0041'), ('backslash', 'CUSTOM_A\\\\B'),
+           ('quote', 'CUSTOM_A"B'), ('json-escape2', 'CUSTOM_\\u005f'),
+           ('percent', 'CUSTOM_%41'), ('tab', 'CUSTOM_A\tB'),
+           ('slash', 'CUSTOM_A/B'), ('nul', 'CUSTOM_A\x00B'),
            ('standard', 'HW_CPU_X86_AVX' if kind == 'trait' else 'VCPU'),
            ('standard2', 'COMPUTE_NODE' if kind == 'trait' else 'DISK_GB')]
     if rng.random() < 0.65:
@@ -135,7 +140,8 @@ def check_state(d, raw_con, res, std_traits, std_classes, what, wit,
                 res.violation(
                     'C19|stored-class-name-not-namespaced|%s' % (
                         'newline' if n.endswith('\n') else
-                        'len' if len(n) > 255 else 'other'),
+                        'len' if len(n) > 255 else
+                        'backslash' if '\\' in n else 'other'),
                     '%s: resource class %r stored' % (what, n), wit)
             if i < 10000:
                 res.violation('C19|custom-class-id-below-10000',
